@@ -10,11 +10,12 @@
     totk <circuit>   -> "ok nq=<n> nb=<n> cmds=<cmd;…> ps=<k:v,…> pp=<dom>><cod>,<box@off,…> scal=<k:m,…> viol=<name@layer|->"
                         | "err <class> viol=<…>"
                         a command is  op[par](q,…|b,…)  in insertion order, par = angle numerator over 16
+    mua <k> <unit>*k -> "<offset> <n> <swap offset>*n"     (from_tk.make_units_adjacent)
     tkspec <circuit> -> "ok nq=<n> nb=<n> cmds=<…> ps=<…> cg=<name(v,…);…> bw=<v,…> scal=<…>" | "err <class>"
                         values: r<id> | o<g>.<p>
 -/
 import Driver.Codec
-import Model.TkSpec
+import Model.TkFrom
 
 namespace DV.TkCmd
 open DV DV.Codec DV.Tk
@@ -98,6 +99,12 @@ def handle (cmd : String) (rest : List String) : Option String :=
         | .ok sp =>
           s!"ok nq={sp.nq} nb={sp.nb} cmds={pCmds sp.cmds} ps={pPS sp.ps} " ++
           s!"cg={String.intercalate ";" (sp.cg.map pCG)} bw={commas (sp.bw.map pBV)} scal={pScal sp.scal}"
+  | "mua" =>
+    some <| match (many nat).run rest with
+      | .error m => "bad " ++ m
+      | .ok (qs, _) =>
+        let r := makeUnitsAdjacent qs
+        s!"{r.1} {pList toString r.2}"
   | _ => none
 
 end DV.TkCmd
